@@ -90,6 +90,11 @@ def underlying_nonref(schema, t):
 
 
 def cmp_bounds(t, d, shape, out, where):
+    if getattr(t, 'lob', None) is not None:
+        # bound specifications other than integer literals / `?` (CONSTANT, function call, attribute of the instance)
+        from . import c02_bounds
+        c02_bounds.cmp_bounds(t, d, shape, out, where)
+        return
     lo, hi = t.lo, t.hi
     b1t, b2t = d.get('b1t'), d.get('b2t')
     if lo is None and hi is None and t.akind != 'ARRAY':
@@ -331,6 +336,9 @@ def compare(schema, dump, chk=None):
                 seen(where, 'type', shape)
                 if a.type.kind == 'aggr':
                     t = a.type
+                    for _lv, bt in _levels(t):
+                        if getattr(bt, 'lob', None) is not None:
+                            seen('aggr-bounds', 'attribute', bt.akind, bt.lob.kind, bt.hib.kind, _lv)
                     seen('aggr', t.akind, 'bounded' if t.lo is not None else 'unbounded', 'hi?' if t.hi is None else 'hi', bool(t.unique), bool(t.optional), t.elem.kind == 'aggr')
         # ---- inverse
         gi = g.get('inverse', [])
@@ -417,9 +425,19 @@ def compare(schema, dump, chk=None):
                 cmp_aggr(schema, b, d, o2, 'type', shape, 0)
                 for key, what in o2:
                     out.append((key, '%s: %s' % (td.name, what)))
+                for _lv, bt in _levels(b):
+                    if getattr(bt, 'lob', None) is not None:
+                        seen('aggr-bounds', 'defined type', bt.akind, bt.lob.kind, bt.hib.kind, _lv)
                 seen('aggr', b.akind, 'bounded' if b.lo is not None else 'unbounded', 'hi?' if b.hi is None else 'hi', bool(b.unique), bool(b.optional), b.elem.kind == 'aggr')
             seen('type', shape)
     return out
+
+
+def _levels(t):
+    n = 0
+    while t is not None and t.kind == 'aggr':
+        yield n, t
+        n, t = n + 1, t.elem
 
 
 def _orig(schema, lname):
